@@ -235,8 +235,9 @@ func init() {
 		}
 		return x.mkStr(out)
 	})
-	reg("unsafe.String", nil)
-	delete(intrinsics, "unsafe.String")
+	reg("internal/stringslite.Clone", func(x *Exec, fr *frame, args []value) value { return args[0] })
+	reg("strings.Clone", func(x *Exec, fr *frame, args []value) value { return args[0] })
+	reg("strconv.cloneString", func(x *Exec, fr *frame, args []value) value { return args[0] })
 
 	reg("fmt.Sprintf", func(x *Exec, fr *frame, args []value) value {
 		return x.sprintf(args[0].(strVal), args[1].(sliceVal))
